@@ -22,4 +22,17 @@ Big100 == <<TRUE, FALSE, FALSE>>
 Big010 == <<FALSE, TRUE, FALSE>>
 Big110 == <<TRUE, TRUE, FALSE>>
 Big0101 == <<FALSE, TRUE, FALSE, TRUE>>
+
+(* What the writer does with each record's line: 0 ok, 1 error, 2 short write, 3 panic. *)
+Ok2 == <<0, 0>>
+Ok3 == <<0, 0, 0>>
+Ok4 == <<0, 0, 0, 0>>
+Ok5 == <<0, 0, 0, 0, 0>>
+F30   == <<3, 0>>
+F300  == <<3, 0, 0>>
+F030  == <<0, 3, 0>>
+F310  == <<3, 1, 0>>
+F100  == <<1, 0, 0>>
+F020  == <<0, 2, 0>>
+F0300 == <<0, 3, 0, 0>>
 =============================================================================
